@@ -118,3 +118,8 @@ META["C09"] = {
     "text": "Every accessor of the bundle returned by Close is compared with the re-opened bundle and with the bundle extracted from its archive, plus a recursive comparison of the two directory trees.",
     "note": "Lookups are compared relative to each bundle's own root.",
 }
+META["C10"] = {
+    "technique": "rapid PBT over hostile fetched package trees; invariants over the finished bundle (physical link resolution, reference ignore matcher) and an arena snapshot",
+    "text": "A hostile fetcher plants links, special files and rule files; a build that succeeds must leave only sane package directories and must not touch anything outside the target; definitely illegal content must make the build fail.",
+    "note": "Uses the same physical resolver as C04 and the same reference matcher as C03.",
+}
